@@ -180,6 +180,8 @@ pub struct ChooserWorld<'a, 'c> {
     pub ch: &'c mut Chooser,
     pub cfg: MenuCfg,
     pub class: Class,
+    /// class charged for fault answers (`Err`, `WrongKind`); defaults to `class`
+    pub fault_class: Option<Class>,
     pub table: BTreeMap<String, Ans>,
     pub asked: usize,
     /// restrict the menu at a position (e.g. what the static family can express)
@@ -198,7 +200,13 @@ impl<'a, 'c> World for ChooserWorld<'a, 'c> {
             let d = m[0].clone();
             m.retain(|a| *a == d || f(path, ty, field.is_none(), a));
         }
-        let k = self.ch.pick(self.class, "world", m.len());
+        let k = match self.fault_class {
+            Some(fc) if m.len() > 1 => {
+                let classes: Vec<Class> = m.iter().map(|a| if matches!(a, Ans::Err | Ans::WrongKind) { fc } else { self.class }).collect();
+                self.ch.pick_costed("world", &classes)
+            }
+            _ => self.ch.pick(self.class, "world", m.len()),
+        };
         let a = m[k].clone();
         if k != 0 {
             self.table.insert(key, a.clone());
